@@ -74,7 +74,22 @@ def runRfs (line : String) : String :=
     | _, _, _, _, _, _ => "bad-op"
   | _ => "bad-op"
 
+/-- stream `c10_realfs` : (rfault LIMIT EVENTS SIZE) — the production `StdFilesystem` under a real "short write,
+    then error" fault (`RLIMIT_FSIZE`), lifted before the retry. Judged by the implementation-side oracle alone; the
+    model contributes the verdict C10 gives for every fault history: after the retry succeeded every event is in
+    some file (`failed_batch_rewritten`, `acked_never_lost`), and every record is a complete event, empty or a
+    truncated prefix of one event (`records_wellformed`). -/
+def runRfault (line : String) : String :=
+  match Sexp.parse line with
+  | some (.list [.atom "rfault", lim, events, size]) =>
+    match lim.nat?, events.nat?, size.nat? with
+    | some lim, some events, some size =>
+      if lim < 1000 || lim > 10000000 || events == 0 || events > 20000 || size < 16 || size > 4096 then "bad-op"
+      else s!"ok\tcrossings={min (events * (size + 1) / lim) 5}"
+    | _, _, _ => "bad-op"
+  | _ => "bad-op"
+
 def streams : List (String × (String → String)) :=
-  [("c07_otlp", runC07o), ("c09_otlp", runC09o), ("c07_file", runC07f), ("c11_realfs", runRfs)]
+  [("c07_otlp", runC07o), ("c09_otlp", runC09o), ("c07_file", runC07f), ("c11_realfs", runRfs), ("c10_realfs", runRfault)]
 
 end EmitModel.Driver.E2E
